@@ -64,7 +64,15 @@ theorem no_unprotected_exit : Gen.Exits.unprotectedSitesAfterTiling = 0 ∧ Gen.
   decide
 
 /-- the paths are put back from the saved arrays, not re-derived from the tiled (re-normalised)
-rotation: in floats only this makes the restore bit-exact -/
+rotation: in floats only this makes the restore bit-exact.
+(Audit 2: the flag is extracted NEGATIVELY — `gen_Exits.uses_slice_restore` looks for `obj._position = obj._position[…]`;
+`false` means "the restore is not a slice of the attribute itself".  That the value put back is the array saved BEFORE the
+tiling is not extracted anywhere: a variant of getBH_level2 that takes `reset_obj_orig` after the tiling loop (inside the
+same `if`-block) regenerates exactly the same three flags, the same site table and the same `tiledIter`/`restoredIter`, so
+every theorem of this file still checks, and leaves every shorter path tiled after every call — reproduced on a scratch
+copy, see AUDIT2 C08.  The model's `restore false orig tiled = orig` is where this WAS assumed; the fact is extracted now as
+`Gen.Exits.savedBeforeTiling`: see `restore_puts_back_arrays_saved_before_tiling`, `level2_preserves_state_four_facts` and the
+witness `with_save_after_tiling_state_leaks` below.) -/
 theorem restore_is_exact : Gen.Exits.restoreBySlicing = false := by decide
 
 /-- calling twice sees the same object state, hence (for a deterministic computation) returns
@@ -161,6 +169,52 @@ example :
       [⟨[1], [1]⟩, ⟨[1, 2, 3], [1, 2, 3]⟩]).1 = [⟨[1], [1]⟩, ⟨[1, 2, 3], [1, 2, 3]⟩] := by
   decide
 
+/-! ## (second audit) the fourth fact: the restore puts back the arrays saved BEFORE the tiling
+
+`restore false orig _ = orig` is where the three-flag model ASSUMES what the `finally` writes.  A save taken after the tiling
+loop (`reset_obj_orig = […]` moved behind the `for obj, m0 in zip(reset_obj, reset_obj_m0)` loop) leaves the three flags of
+Gen/Exits, the whole write-set table and the four tiling scalars unchanged — every theorem above and below still checked —
+while `getB([a, b], …)` on the real objects leaves `a._position.shape == (3, 3)` instead of `(1, 3)` (reproduced on a scratch
+copy of /repo).  `gen_Exits` now extracts the fact (`Gen.Exits.savedBeforeTiling`: one restore loop
+`for v, (p, o) in zip(A, B): v._position = p; v._orientation = o`, `B` stored once, by a top-level statement before the
+first tiling statement, as `[(x._position, x._orientation) for x in A]`, read once), the model takes it as a fourth
+argument (`Level2State.runFlags4`), and it is shown necessary like the other three. -/
+
+/-- the regenerated fourth fact holds of the source as it is -/
+theorem restore_puts_back_arrays_saved_before_tiling : Gen.Exits.savedBeforeTiling = true := by decide
+
+/-- with the fourth fact the four-flag model is the three-flag model … -/
+theorem runFlags4_saved_eq {ε β : Type} (norm : G → G) (fin : Bool) (u : Nat) (sl : Bool)
+    (compute : List (Obj G V) → Except ε β) (objs : List (Obj G V)) :
+    runFlags4 norm fin u sl true compute objs = runFlags norm fin u sl compute objs := by
+  have : (restoreS (G := G) (V := V) sl true) = restore sl := by
+    funext o t; cases sl <;> simp [restoreS, restore]
+  simp only [runFlags4, runFlags, runS, runN, this]
+
+/-- … so **sufficiency with all four facts regenerated**: every fault schedule, every re-normalisation, every object list -/
+theorem level2_preserves_state_four_facts {ε β : Type} (norm : G → G) (compute : List (Obj G V) → Except ε β)
+    (objs : List (Obj G V)) : (runNowS norm compute objs).1 = objs := by
+  have h4 : Gen.Exits.savedBeforeTiling = true := by decide
+  unfold runNowS
+  rw [h4, runFlags4_saved_eq]
+  exact level2_preserves_state_any_norm norm compute objs
+
+/-- **fact 4 is necessary** (`savedBeforeTiling`): with the other three as they are (restore in the `finally`, nothing
+raising before the `try`, no slicing) and in exact arithmetic, a save taken after the tiling leaves the tiled path in the
+object — on a call that SUCCEEDS -/
+theorem with_save_after_tiling_state_leaks :
+    (runFlags4 (G := Nat) (V := Nat) (ε := Unit) (β := Unit) id true 0 false false (fun _ => .ok ())
+      [⟨[1], [1]⟩, ⟨[1, 2, 3], [1, 2, 3]⟩]).1 ≠ [⟨[1], [1]⟩, ⟨[1, 2, 3], [1, 2, 3]⟩] := by
+  decide
+
+/-- the witness is minimal (same input, fourth flag switched back), and what is left in the object is the tiled path -/
+example :
+    (runFlags4 (G := Nat) (V := Nat) (ε := Unit) (β := Unit) id true 0 false true (fun _ => .ok ())
+      [⟨[1], [1]⟩, ⟨[1, 2, 3], [1, 2, 3]⟩]).1 = [⟨[1], [1]⟩, ⟨[1, 2, 3], [1, 2, 3]⟩] ∧
+    (runFlags4 (G := Nat) (V := Nat) (ε := Unit) (β := Unit) id true 0 false false (fun _ => .ok ())
+      [⟨[1], [1]⟩, ⟨[1, 2, 3], [1, 2, 3]⟩]).1 = [⟨[1, 1, 1], [1, 1, 1]⟩, ⟨[1, 2, 3], [1, 2, 3]⟩] := by
+  decide
+
 /-! ## write-set / alias analysis of the call path (Gen/WriteSet.lean, regenerated by translate/writeset.py)
 
 What the three flags of Gen/Exits leave open — that NOTHING ELSE on the call path writes into an object, into an array of the
@@ -202,7 +256,11 @@ theorem preexisting_roots_are_exactly :
 
 /-- the `finally` block restores every object the tiling statement pads: both loops run over the same list, which is bound
 once and never mutated, and the `try` follows the tiling statement directly (closes the gap "that the finally-block restores
-EVERY tiled object" of `level2_preserves_state`) -/
+EVERY tiled object" of `level2_preserves_state`).
+(Audit 2: `tiledIter` / `restoredIter` are the FIRST argument of the `zip(...)` the two loops run over.  The second argument
+of the restore loop — `reset_obj_orig`, the saved arrays — is not looked at: that it is bound once, BEFORE the tiling
+statement, from the same list and as long as it (zip truncates silently) is not part of this statement; see the note at
+`restore_is_exact` and `heap_restore_is_assumed_not_traced` below.) -/
 theorem restore_covers_every_tiled_object :
     Gen.WriteSet.tiledIter = Gen.WriteSet.restoredIter ∧ Gen.WriteSet.tiledIter ≠ "" ∧
     Gen.WriteSet.iterAssignedOnce = true ∧ Gen.WriteSet.tilingDirectlyBeforeTry = true := by
@@ -429,6 +487,145 @@ theorem pure_rejects_param_write :
       Gen.WriteSet.extCalls Gen.WriteSet.notes = false ∧
     WriteSet.Pure Gen.WriteSet.sites (Gen.WriteSet.extCalls ++ [⟨"field_wrap_BH.getBH_level2", 300, "some_new_helper", false⟩]) Gen.WriteSet.notes = false := by
   decide +kernel
+
+/-! ### added by audit 2: coverage of the regenerated table, non-vacuity of `DescribedBy`, and what `Heap.restore` assumes -/
+
+/-- `Pure` is `List.all` over the regenerated table and holds for an empty one.  This pins that the table is populated and
+closed: every mutation site and every external call lies in a function of the analysed set (23 s: 417 × 264 string
+comparisons in the kernel) … -/
+theorem every_site_lies_in_an_analysed_function :
+    Gen.WriteSet.sites.all (fun s => Gen.WriteSet.functions.contains s.fn) = true := by
+  decide +kernel
+
+/-- … the functions of the wrapper layer that build lists / dicts / result arrays and the core field functions that fill a
+result array each HAVE write sites in the table (a translator that stopped descending into one of them would produce fewer
+rows, and `Pure` would get easier, not harder), the argument writers are core field functions, and the `consume` sites are
+exactly the two calls of getBH_level1 and the call of check_chirality.  (BHJM_dipole and BHJM_triangle have no write site:
+they assemble their result without subscript assignment.) -/
+theorem table_is_populated :
+    Gen.WriteSet.extCalls.all (fun c => Gen.WriteSet.functions.contains c.fn) = true ∧
+    Gen.WriteSet.argWriters.all (Gen.WriteSet.fieldFunctions.contains ·) = true ∧
+    ["field_wrap_BH.getBH_level2", "field_wrap_BH.getBH_level1", "field_wrap_BH.getBH_dict_level2", "field_wrap_BH.get_src_dict",
+     "utility.format_obj_input", "utility.format_src_inputs", "utility.check_static_sensor_orient", "utility.filter_objects",
+     "input_checks.check_format_input_observers", "class_BaseGeo.BaseGeo.style",
+     "field_BH_circle.BHJM_circle", "field_BH_cuboid.BHJM_magnet_cuboid", "field_BH_cylinder.BHJM_magnet_cylinder",
+     "field_BH_cylinder_segment.BHJM_cylinder_segment", "field_BH_polyline.BHJM_current_polyline",
+     "field_BH_sphere.BHJM_magnet_sphere", "field_BH_tetrahedron.BHJM_magnet_tetrahedron", "field_BH_tetrahedron.check_chirality",
+     "field_BH_triangularmesh.BHJM_magnet_trimesh"].all
+      (fun f => Gen.WriteSet.sites.any (fun s => s.fn == f && s.kind.isWrite)) = true ∧
+    (Gen.WriteSet.sites.filter fun s => s.kind == .consume).map (·.fn) =
+      ["field_wrap_BH.getBH_level2", "field_wrap_BH.getBH_dict_level2", "field_BH_tetrahedron.BHJM_magnet_tetrahedron"] := by
+  decide +kernel
+
+/-- `entry_points_analysed` lists only `getB` of the three class interfaces; here all sixteen interface methods, the other
+implicit dunders and the `orientation` getter -/
+theorem all_interface_roots_analysed :
+    ["field_wrap_BH.getB", "field_wrap_BH.getH", "field_wrap_BH.getJ", "field_wrap_BH.getM",
+     "class_BaseExcitations.BaseSource.getB", "class_BaseExcitations.BaseSource.getH", "class_BaseExcitations.BaseSource.getJ",
+     "class_BaseExcitations.BaseSource.getM", "class_Sensor.Sensor.getB", "class_Sensor.Sensor.getH", "class_Sensor.Sensor.getJ",
+     "class_Sensor.Sensor.getM", "class_Collection.BaseCollection.getB", "class_Collection.BaseCollection.getH",
+     "class_Collection.BaseCollection.getJ", "class_Collection.BaseCollection.getM",
+     "class_Collection.BaseCollection.__len__", "class_Collection.BaseCollection.__getitem__",
+     "class_BaseDisplayRepr.BaseDisplayRepr.__repr__", "class_BaseGeo.BaseGeo.orientation"].all (Gen.WriteSet.functions.contains ·) = true := by
+  decide +kernel
+
+/-- the first write site of the regenerated table of each class (indices computed, not copied: robust against a changed row
+order) -/
+def iFresh : Nat := Gen.WriteSet.sites.findIdx (fun s => s.kind.isWrite && s.cls == .fresh)
+def iTemp : Nat := Gen.WriteSet.sites.findIdx (fun s => s.kind.isWrite && s.cls == .temp)
+def iLazy : Nat := Gen.WriteSet.sites.findIdx (fun s => s.kind.isWrite && s.cls == .lazy)
+
+theorem table_has_a_site_of_each_class :
+    (Gen.WriteSet.sites[iFresh]?).map (fun s => (s.kind.isWrite, s.cls)) = some (true, .fresh) ∧
+    (Gen.WriteSet.sites[iTemp]?).map (fun s => (s.kind.isWrite, s.cls)) = some (true, .temp) ∧
+    (Gen.WriteSet.sites[iLazy]?).map (fun s => (s.kind.isWrite, s.cls)) = some (true, .lazy) := by
+  decide +kernel
+
+theorem site_of_class {i : Nat} {c : Cls}
+    (h : (Gen.WriteSet.sites[i]?).map (fun s => (s.kind.isWrite, s.cls)) = some (true, c)) :
+    ∃ s, Gen.WriteSet.sites[i]? = some s ∧ s.kind.isWrite = true ∧ s.cls = c := by
+  cases hs : Gen.WriteSet.sites[i]? with
+  | none => rw [hs] at h; simp at h
+  | some s =>
+    rw [hs] at h
+    simp only [Option.map_some, Option.some.injEq, Prod.mk.injEq] at h
+    exact ⟨s, rfl, h.1, h.2⟩
+
+/-- a trace issued by sites OF THE REGENERATED TABLE: allocate, write the new cell (a fresh site), pad the path (the tiling
+site), materialise the style slot (a lazy site), allocate, put the path back (a temp site writing the ORIGINAL value 10) -/
+def demoTableTrace : List (Ev Nat) :=
+  [.alloc 7, .write iFresh 3 8, .write iTemp 0 99, .write iLazy 2 55, .alloc 1, .write iTemp 0 10]
+
+/-- non-vacuity of the hypothesis `DescribedBy Gen.WriteSet.sites …` of `call_path_preserves_old_heap` (the examples above
+instantiate `WritesFresh` only) -/
+theorem demoTableTrace_described : DescribedBy Gen.WriteSet.sites demoHeap demoTemp demoLazy demoTableTrace := by
+  obtain ⟨hf, ht, hl⟩ := table_has_a_site_of_each_class
+  intro e he
+  simp only [demoTableTrace, List.mem_cons, List.mem_nil_iff, or_false] at he
+  rcases he with rfl | rfl | rfl | rfl | rfl | rfl
+  · trivial
+  · obtain ⟨s, h1, h2, h3⟩ := site_of_class hf
+    exact ⟨s, h1, h2, by rw [h3]; decide⟩
+  · obtain ⟨s, h1, h2, h3⟩ := site_of_class ht
+    exact ⟨s, h1, h2, by rw [h3]; decide⟩
+  · obtain ⟨s, h1, h2, h3⟩ := site_of_class hl
+    exact ⟨s, h1, h2, by rw [h3]; decide⟩
+  · trivial
+  · obtain ⟨s, h1, h2, h3⟩ := site_of_class ht
+    exact ⟨s, h1, h2, by rw [h3]; decide⟩
+
+/-- … and `call_path_preserves_old_heap` APPLIED to it, at every cut -/
+example : ∀ n a, a < 3 → a ≠ 2 →
+    (demoHeap.restore demoTemp (demoHeap.exec demoTableTrace)).cell a = demoHeap.cell a ∧
+    (demoHeap.restore demoTemp (demoHeap.exec (demoTableTrace.take n))).cell a = demoHeap.cell a := by
+  intro n a ha h2
+  exact call_path_preserves_old_heap demoHeap demoTemp demoLazy demoTableTrace demoTableTrace_described n a ha
+    (by simp [demoLazy]; omega)
+
+/-- **what `Heap.restore` assumes, made a hypothesis.**  `call_path_preserves_old_heap` applies the model operator
+`h0.restore temp` after the trace: the `finally` is taken to put the ENTRY values back, whatever the `restore`-region sites
+of the trace wrote.  Here the operator is gone and the assumption is explicit (`hr`: at the exit every temporary cell holds
+its entry value — what the restore sites really write is the trace's business).  `hr` is not extracted from the source: the
+table only knows that lines 412/413 assign `_position` / `_orientation` inside the `finally`, not WHAT they assign. -/
+theorem call_path_preserves_old_heap_traced (h0 : Heap W) (temp lazy : Nat → Bool) (tr : List (Ev W))
+    (hd : DescribedBy Gen.WriteSet.sites h0 temp lazy tr)
+    (hr : ∀ a, a < h0.next → temp a = true → (h0.exec tr).cell a = h0.cell a)
+    (a : Nat) (ha : a < h0.next) (hl : lazy a = false) :
+    (h0.exec tr).cell a = h0.cell a := by
+  have hw := pure_described_writesFresh _ _ _ call_path_writes_only_fresh.1 h0 temp lazy tr hd
+  by_cases ht : temp a = true
+  · exact hr a ha ht
+  · exact exec_keeps_old_cell h0 temp lazy tr h0 (Nat.le_refl _) hw a ha (by simpa using ht) hl
+
+/-- non-vacuity: `demoTableTrace` restores the path itself (its last event writes the entry value 10 to cell 0) -/
+example : ∀ a, a < 3 → a ≠ 2 → (demoHeap.exec demoTableTrace).cell a = demoHeap.cell a := by
+  intro a ha h2
+  refine call_path_preserves_old_heap_traced demoHeap demoTemp demoLazy demoTableTrace demoTableTrace_described ?_ a ha
+    (by simp [demoLazy]; omega)
+  intro b _ hbt
+  have : b = 0 := by simpa [demoTemp] using hbt
+  subst this
+  decide
+
+/-- "the save is taken AFTER the tiling": the tiling site writes 99, the restore site writes 99 again -/
+def demoSavedAfterTiling : List (Ev Nat) := [.alloc 7, .write iTemp 0 99, .write iTemp 0 99]
+
+/-- **witness of the gap** (`hr` cannot be dropped): this trace IS described by the regenerated table — both writes come from
+allow-listed `temp` sites — and leaves the object's path cell changed; the model operator `Heap.restore` hides that.  The
+corresponding source variant (`reset_obj_orig` computed after the tiling loop) regenerates identical Gen/Exits flags and an
+identical Gen/WriteSet table, so no theorem of this file notices it; the snapshot oracle does. -/
+theorem heap_restore_is_assumed_not_traced :
+    DescribedBy Gen.WriteSet.sites demoHeap demoTemp demoLazy demoSavedAfterTiling ∧
+    (demoHeap.exec demoSavedAfterTiling).cell 0 ≠ demoHeap.cell 0 ∧
+    (demoHeap.restore demoTemp (demoHeap.exec demoSavedAfterTiling)).cell 0 = demoHeap.cell 0 := by
+  refine ⟨?_, by decide, by decide⟩
+  obtain ⟨s, h1, h2, h3⟩ := site_of_class table_has_a_site_of_each_class.2.1
+  intro e he
+  simp only [demoSavedAfterTiling, List.mem_cons, List.mem_nil_iff, or_false] at he
+  rcases he with rfl | rfl | rfl
+  · trivial
+  · exact ⟨s, h1, h2, by rw [h3]; decide⟩
+  · exact ⟨s, h1, h2, by rw [h3]; decide⟩
 
 end WriteSet
 
